@@ -33,6 +33,7 @@ RULE = (
     "interface.import_plugins(folder) on a generated plugin file with documentation-style class names whose classes "
     "print their call log as JSON. Non-trivial case: a validated row with a rejected cell that is not in the last "
     "column, or a veto by a check that is not the last, or a second run on the same CID; distinct by hash of the case."
+    "Plugin styles include 'lean' (checks inherit cleanup()); class stems include ones that end in 'Check' / 'FieldFormat'."
 )
 ASSUMPTIONS = [
     "neutral: the order in which the checks are reset and the order in which they are cleaned up (only 'each exactly "
